@@ -218,10 +218,9 @@ Definition zero_sub (m : imap) (sh : list nat) (fi : list (nat * nat)) : option 
     let fi' := fold_right (fun p acc => match sub m (Free (fst p)) with
                                         | Free j => fi_insert j (snd p) acc
                                         | Fixed _ => acc end) [] fi in
-    match fi' with
-    | [] => None            (* the unpacking of zip( *fi ) raises ValueError *)
-    | _ => Some (Zero sh fi')
-    end
+    (* since /repo commit 826ad17 an index-free Zero is returned when every free index was
+       replaced by a fixed index (before, the unpacking of an empty zip raised ValueError) *)
+    Some (Zero sh fi')
   else Some (Zero sh fi).
 
 Fixpoint irep (m : imap) (e : expr) {struct e} : option expr :=
